@@ -77,6 +77,12 @@ class BehavioralRTLIRToVVisitorL2( BehavioralRTLIRToVVisitorL1 ):
   # visit_If
   #-----------------------------------------------------------------------
 
+  def _needs_begin_end( s, stmts ):
+    # A chained assignment a = b = x is a single statement that is emitted
+    # as one assignment per target
+    return len( stmts ) > 1 or \
+           any( isinstance( x, bir.Assign ) and len( x.targets ) > 1 for x in stmts )
+
   def visit_If( s, node ):
     node.cond._top_expr = True
 
@@ -111,12 +117,12 @@ class BehavioralRTLIRToVVisitorL2( BehavioralRTLIRToVVisitorL1 ):
 
       # Else indent orelse-body
       else:
-        else_begin = 'else' + ( ' begin' if len( node.orelse ) > 1 else '' )
+        else_begin = 'else' + ( ' begin' if s._needs_begin_end( node.orelse ) else '' )
         make_indent( orelse, 1 )
 
       src.extend( [ else_begin ] )
       src.extend( orelse )
-      if len( node.orelse ) > 1:
+      if s._needs_begin_end( node.orelse ):
         src.extend( [ 'end' ] )
 
     return src
@@ -136,7 +142,7 @@ class BehavioralRTLIRToVVisitorL2( BehavioralRTLIRToVVisitorL1 ):
     start    = s.visit( node.start )
     end      = s.visit( node.end )
 
-    begin    = ' begin' if len( node.body ) > 1 else ''
+    begin    = ' begin' if s._needs_begin_end( node.body ) else ''
 
     cmp_op   = '>' if node.step._value < 0 else '<'
     inc_op   = '-' if node.step._value < 0 else '+'
@@ -170,7 +176,7 @@ class BehavioralRTLIRToVVisitorL2( BehavioralRTLIRToVVisitorL1 ):
     src.extend( [ for_begin ] )
     src.extend( body )
 
-    if len( node.body ) > 1:
+    if s._needs_begin_end( node.body ):
       src.extend( [ 'end' ] )
 
     return src
